@@ -236,6 +236,16 @@ impl Rig {
             .rev()
             .find_map(|c| c.2)
             .unwrap_or(self.initial_cap);
+        if self.rr().policy_generation() != self.policy_generation {
+            return Err((
+                "INV-C".into(),
+                format!(
+                    "policy() hands out policy object #{} but #{} was installed last",
+                    self.rr().policy_generation(),
+                    self.policy_generation
+                ),
+            ));
+        }
         if snap.capacity != expect_cap {
             return Err((
                 "INV-C".into(),
